@@ -210,7 +210,7 @@ fn check(t: &TextCase, obs: &mut Obs) {
     }
 }
 
-const STRINGS: [&str; 14] = ["", "a", "ab", "a\nbc", "ab\r\nc", "\n", "a\n", "\r\n", "ab\n\nc", "Hello World!\nx", "Hello World!\r\nabcdefghij\r\n", "q\u{1F600}\u{7}", "a\tb", "gjpqy|_W"];
+const STRINGS: [&str; 15] = ["21\u{b0}\nabcd\n\u{1F600}", "", "a", "ab", "a\nbc", "ab\r\nc", "\n", "a\n", "\r\n", "ab\n\nc", "Hello World!\nx", "Hello World!\r\nabcdefghij\r\n", "q\u{1F600}\u{7}", "a\tb", "gjpqy|_W"];
 
 fn cases(tier: Tier) -> Vec<TextCase> {
     let fonts: Vec<usize> = if tier.is_thorough() { (0..FONTS.len()).collect() } else { fonts_of("ascii") };
@@ -248,7 +248,7 @@ fn run_part(run: &mut Run) {
     let tier = run.tier;
     run.sweep_vec(
         "layout",
-        "built-in fonts (quick: the 22 ascii fonts = every size/weight; thorough: all 292) x 14 strings (empty, single/multi-line, empty lines, trailing newline, CR LF, long lines, unmapped characters) x 3 alignments x 4 baselines x 4 line heights x 4 decoration sets x background on/off x 2 positions, plus a 300-character line and a 300-line text in two fonts",
+        "built-in fonts (quick: the 22 ascii fonts = every size/weight; thorough: all 292) x 15 strings (empty, single/multi-line, empty lines, trailing newline, CR LF, long lines, unmapped characters, consecutive lines of equal byte length but different character counts) x 3 alignments x 4 baselines x 4 line heights x 4 decoration sets x background on/off x 2 positions, plus a 300-character line and a 300-line text in two fonts",
         || cases(tier),
         check,
     );
